@@ -645,15 +645,11 @@ def special_cases(rng):
     # substitution
     modes = nc.rand_modes(rng, 1, 2)
 
-    def realify(t):  # _poly_simplify raises on a complex numeric factor next to a free symbol (reported defect): real constants
-        if t[0] == "const":
-            return ["const", t[1], "0"]
-        return [t[0]] + [realify(x) if isinstance(x, list) else x for x in t[1:]]
     how = rng.choice(["subs", "xreplace", "poly"])
     t1, t2 = small(rng, modes), small(rng, modes)
-    if how == "poly":
-        t1, t2 = realify(t1), realify(t2)
     case(modes, dict(sp="subs", how=how, v=str(Fr(rng.choice([2, 3, -1, 1]), rng.choice([1, 2]))), t1=t1, t2=t2))
+    # corpus (finding D23): _poly_simplify with a complex numeric factor next to a free symbol, t*(1+i)*a + t^2*(2+i/2)*N_a
+    case(["B"], dict(sp="subs", how="poly", v="2", t1=["mul", ["const", "1", "1"], ["op", 0, 0]], t2=["mul", ["const", "2", "1/2"], ["num", 0]]))
     # arithmetic with plain sympy expressions
     for op in rng.sample(["radd", "add", "sub", "rsub", "rmul", "mul"], 3):
         modes = nc.rand_modes(rng, 1, 3)
